@@ -85,11 +85,30 @@ func c07eval(r *vx.R, c c07case, fast cipher.AEAD) {
 			}
 		}
 	}
+	// record layout: one buffer header|ciphertext, dst = additional data = header, opened in place behind it - the
+	// verdict must be the same, and after a rejection the header is intact
+	if c.DstSpare && len(aad) > 0 && len(ct) <= 4200 {
+		r.Eval(1)
+		rec := append(append([]byte{}, aad...), ct...)
+		var got2 []byte
+		var gerr2 error
+		kind, msg := vx.TryFault(func() { got2, gerr2 = a.Open(rec[:len(aad)], nonce, rec[len(aad):], rec[:len(aad)]) })
+		switch {
+		case kind != "":
+			r.Violation("open:panic:record-layout", fmt.Sprintf("Open(rec[:hdr], nonce, rec[hdr:], rec[:hdr]) panicked (%s) on %s (hdr %d, ct %d): %s", kind, c.Mut, len(aad), len(ct), msg), c)
+		case wantOK && (gerr2 != nil || !bytes.Equal(got2, append(append([]byte{}, aad...), wantPt...))):
+			r.Violation("open:rejects-authentic:record-layout", fmt.Sprintf("in-place Open behind the header failed for an authentic message (%s): %v", c.Mut, gerr2), c)
+		case !wantOK && gerr2 == nil:
+			r.Violation("open:accepts-forgery:record-layout", fmt.Sprintf("in-place Open behind the header accepted a non-authentic input (%s)", c.Mut), c)
+		case !bytes.Equal(rec[:len(aad)], aad):
+			r.Violation("open:header-modified:record-layout", "the dst prefix / additional data was changed", c)
+		}
+	}
 	r.Shape(fmt.Sprintf("%s:%s:ct%d:aad%d:n%d:t%d:%v:%s", c.Key, c.Mut, len(ct), len(aad), len(nonce), c.Tag, wantOK, path))
 }
 
 func TestVX_C07(t *testing.T) {
-	r := vx.Begin("C07", gcmPart("open"), "valid messages over pt lengths {0,1,15,16,17,31,32,33,63,64,65,127,128,129,255,256,257,1100} x aad {0,1,16,17,129} x nonce length {1,12,13,16,128} x tag {12..16} (quick: a slice), plus large base messages (pt,aad) in {(2048,13),(4096,0),(4097,13),(65537,5),(33,4096),(20,65537),(8192,8192)} [thorough: also (2^20,3),(2^20+17,2^16+1),(16389,0)]: Open must return the plaintext; then every single-bit flip of ciphertext body, tag, nonce and aad (large messages: one bit in each byte at both ends, the middle and next to every kernel-width boundary), removal of the last 1..tagSize bytes, removal of the first byte, one appended byte, the tag presented to an AEAD of every other tag size, every prefix shorter than the tag, all-zero tag. Oracle: reference GCM decides (standard library generic GCM over sm4ref, itself checked against gcmref on each base message; gcmref directly where the standard library cannot express the parameters); never panic; nil plaintext on error; no plaintext left in the caller's dst after a rejection. Shape=(key, mutation, lengths, verdict, path)")
+	r := vx.Begin("C07", gcmPart("open"), "valid messages over pt lengths {0,1,15,16,17,31,32,33,63,64,65,127,128,129,255,256,257,1100} x aad {0,1,16,17,129} x nonce length {1,12,13,16,128} x tag {12..16} (quick: a slice), plus large base messages (pt,aad) in {(2048,13),(4096,0),(4097,13),(65537,5),(33,4096),(20,65537),(8192,8192)} [thorough: also (2^20,3),(2^20+17,2^16+1),(16389,0)]: Open must return the plaintext; then every single-bit flip of ciphertext body, tag, nonce and aad (large messages: one bit in each byte at both ends, the middle and next to every kernel-width boundary), removal of the last 1..tagSize bytes, removal of the first byte, one appended byte, the tag presented to an AEAD of every other tag size, every prefix shorter than the tag, all-zero tag. Oracle: reference GCM decides (standard library generic GCM over sm4ref, itself checked against gcmref on each base message; gcmref directly where the standard library cannot express the parameters); never panic; nil plaintext on error; no plaintext left in the caller's dst after a rejection; the destination-with-spare variants are opened a second time in the record layout (one buffer header|ciphertext: dst = additional data = header, opened in place) with the same verdict required. Shape=(key, mutation, lengths, verdict, path)")
 	defer r.End()
 	selfCheck()
 	if raw, ok := vx.Replay(gcmPart("open")); ok {
